@@ -304,7 +304,7 @@ def install(lib):
         val = gd_val(c)
         return Structural("source-consulted-exactly-once", lambda c: consults_ok(c, d), ("C08",),
                           caller_effect=lambda c: c.new.ghost.setdefault("consults", []).append(
-                              ("contract", d.oid, val, drawn_of(d))))
+                              ("contract", d.oid, val, drawn_of(d), len(c.new.ghost.get("gets", [])))))
 
     def gd_const(c):
         d = c.args["delay"]
